@@ -41,6 +41,7 @@ func checkC03(c *Ctx) {
 
 // decodeLoopConservation: B3.
 func (c *Ctx) decodeLoopConservation() {
+	c.R.Rule("B3-cursor-conservation", "in a decode loop controlled by a remaining-length budget, cursor + budget is loop-invariant: the decoder consumes exactly what it charges (checked on the symbolic values flowing over the back edge); a decode loop written `for cursor < end` has end = fixed-header length + remaining length, the length of the packet's image (proven at the loop test).")
 	n := 0
 	for _, fn := range c.decodeLoopHosts() {
 		loops := ir.Loops(fn)
@@ -48,7 +49,82 @@ func (c *Ctx) decodeLoopConservation() {
 			continue
 		}
 		an := bounds.NewAnalyzer(c.P)
+		// the other form of such a loop: `for cursor < end`. Then the end must be the end of the packet - fixed header plus
+		// remaining length, the length of the image the header decoder kept (B9) - at the loop's test.
+		type endForm struct {
+			iff     *ssa.If
+			end     ssa.Value
+			seen    bool
+			matches bool
+		}
+		var ends []*endForm
+		for _, l := range loops {
+			if iff, ok := l.Header.Instrs[len(l.Header.Instrs)-1].(*ssa.If); ok {
+				if bo, ok := iff.Cond.(*ssa.BinOp); ok && (bo.Op == token.LSS || bo.Op == token.GTR) {
+					x, y := bo.X, bo.Y
+					if bo.Op == token.GTR {
+						x, y = y, x
+					}
+					if ph, ok := x.(*ssa.Phi); ok && ph.Block() == l.Header && usedAsSliceBound(ph, l) {
+						if _, isK := y.(*ssa.Const); !isK {
+							ends = append(ends, &endForm{iff: iff, end: y})
+						}
+					}
+				}
+			}
+		}
+		var image *bounds.AVal
+		sawDecode := false
+		an.Probe = func(p *bounds.Probe) {
+			if p.Depth() != 0 {
+				return
+			}
+			// the packet's image as the fixed-header decoder left it: recorded right behind the call (nothing in a Decode
+			// body stores header.dbuf afterwards; calls made later only make the engine forget the heap, not the facts)
+			if call, ok := p.Instr.(*ssa.Call); ok && p.Post {
+				if f := call.Common().StaticCallee(); f != nil && f.Name() == "decode" && recvNamed(f) == "header" {
+					sawDecode = true
+				}
+			}
+			if sawDecode && image == nil && len(an.EntryArgs) > 0 && an.EntryArgs[0].Kind == bounds.KAddr {
+				base := an.EntryArgs[0]
+				for _, path := range []string{"header.dbuf", "dbuf"} {
+					if base.Path != "" {
+						path = base.Path + "." + path
+					}
+					if v, ok := p.St.Heap[base.Obj+"|"+path]; ok && v.Kind == bounds.KSlice {
+						vv := v
+						image = &vv
+					}
+				}
+			}
+			if p.Post || p.Instr == nil {
+				return
+			}
+			for _, e := range ends {
+				if p.Instr != ssa.Instruction(e.iff) {
+					continue
+				}
+				ev, ok := p.Val(0, e.end)
+				if !ok || ev.Kind != bounds.KInt || image == nil {
+					e.seen, e.matches = true, false
+					continue
+				}
+				good := p.Proves(bounds.GE(ev.Int, image.Len)) && p.Proves(bounds.LE(ev.Int, image.Len))
+				if !e.seen {
+					e.matches = good
+				} else {
+					e.matches = e.matches && good
+				}
+				e.seen = true
+			}
+		}
 		an.Run(fn)
+		an.Probe = nil
+		for _, e := range ends {
+			n++
+			c.R.Check(e.seen && e.matches, "B3-cursor-conservation", fname(fn)+":loop:runs-to-the-end-of-the-packet", c.P.InstrPos(e.iff), "the loop runs while the cursor is before fixed header + remaining length", "the decode loop compares its cursor with something other than the end of the packet (fixed-header length + remaining length): it stops before the last elements of a packet whose header is longer than the difference - they are silently dropped - or runs past the packet")
+		}
 		for _, l := range loops {
 			// budget phi: the one the header's exit test compares with a constant; cursor phis: the others of integer type
 			var budget *ssa.Phi
